@@ -19,7 +19,8 @@ RULE = ("seeded circuits whose nodes share NodeTemplate / OperatorTemplate objec
         "objects before the updates; M-tpl fingerprints of the shared template objects must not change; non-trivial = at least "
         "one override that addresses some but not all nodes sharing a template; distinct = distinct (spec, overrides) hash")
 DECIDING = ['arg_value_checks', 'layout_checks', 'derivatives_compared', 'sibling_circuit_checks', 'template_fingerprint_checks',
-            'update_var_scalar', 'update_var_array', 'node_values', 'edge_updates', 'first_row_checks']
+            'update_var_scalar', 'update_var_array', 'node_values', 'edge_updates', 'first_row_checks',
+            'population_updates_scalar', 'population_updates_per_unit', 'late_edges_added_in_place']
 ASSUMPTIONS = ['array values are distributed one per addressed node in declaration (path) order',
                'node_values addresses all nodes matching the node part of the path']
 CASE_TIMEOUT = 180
@@ -30,12 +31,62 @@ def plan(tier, seed):
     rnd = random.Random(f'{PID}-{seed}')
     n = 260 if tier == 'quick' else 7000
     cases = [{'family': 'main', 'cseed': rnd.randrange(1 << 30)} for _ in range(n)]
+    cases += [{'family': 'population', 'cseed': rnd.randrange(1 << 30)} for _ in range(30 if tier == 'quick' else 600)]
     opened = open_risks(PID)
     k = 12 if tier == 'quick' else 120
     for feat in FOCUS:
         fam = 'probe:' + feat if feat in opened else 'main'
         cases += [{'family': fam, 'cseed': rnd.randrange(1 << 30), 'want': feat} for _ in range(k)]
     return cases
+
+
+def run_population_case(case, ctx):
+    """update_var on the variables of a PopulationTemplate node (scalar for all units, or one value per unit): the compiled
+    population circuit must equal the explicit network with the updated per-unit values (vp/props/c16.py does the comparison)."""
+    from vp.props import c16
+    if case.get('spec') is not None:
+        res = c16.run_case(case, ctx)
+    else:
+        rnd = random.Random(case['cseed'])
+        opened16 = open_risks('C16')
+        for attempt in range(300):
+            plan_, risk = c16.gen_pop_case(rnd, None, opened16)
+            if risk and set(risk) & set(opened16):
+                continue
+            if any(c.get('delay') or c.get('form') == 'dynamic' for c in plan_['conns']):
+                continue
+            break
+        else:
+            raise RuntimeError('generator could not satisfy the constraints')
+        used = set()
+
+        def fresh():
+            while True:
+                x = round(rnd.uniform(2.0, 4.0), 4)
+                if x not in used:
+                    used.add(x)
+                    return x
+        pre = {}
+        for pn, p in plan_['pops'].items():
+            op = plan_['ops'][p['op']]
+            de = {e[1] for e in op['eqs'] if e[0] == 'de'}
+            cands = [v for v, d in op['vars'].items() if d[0] == 'const' or v in de]
+            for v in rnd.sample(cands, min(len(cands), rnd.randint(1, 2))):
+                # (states are located by their values: one scalar for all units only for constants)
+                scalar = (rnd.random() < 0.5 and v not in de) or p['n'] == 1
+                orig = p['params'].get(v)
+                p['params'][v] = [fresh()] * p['n'] if scalar else [fresh() for _ in range(p['n'])]
+                pre[f'{pn}/{v}'] = {'orig': orig, 'scalar': scalar}
+        plan_['pre_update'] = pre
+        res = c16.run_case({'cseed': case['cseed'], 'spec': plan_, 'case_risk': []}, ctx)
+    res['risk'] = []
+    res['case_extra'] = {'case_risk': []}
+    m = res.setdefault('mech', {})
+    pre = (case.get('spec') or plan_).get('pre_update', {})
+    m['population_updates_scalar'] = sum(1 for u in pre.values() if u['scalar'])
+    m['population_updates_per_unit'] = sum(1 for u in pre.values() if not u['scalar'])
+    res['features'] = list(res.get('features', [])) + ['population_update_var']
+    return res
 
 
 def warmup(ctx):
@@ -144,6 +195,13 @@ def make_case(case, ctx):
         spec['updates'] = updates
         spec['node_values'] = node_values
         spec['edge_updates'] = edge_updates
+        # some (untemplated, top-level) edges are added to the finished template in place (update_template(edges=..., in_place=True)
+        # or add_edges_from_matrix) BEFORE the edge updates, which may address old and new edges alike
+        plain = [i for i, e in enumerate(spec['circ'].get('edges', [])) if e[2] is None and set(e[3]) <= {'weight'}]
+        if plain and rnd.random() < 0.4:
+            spec['late_edges'] = sorted(rnd.sample(plain, rnd.randint(1, min(2, len(plain)))))
+            spec['late_how'] = rnd.choice(['update_template', 'add_edges_from_matrix'])
+            kinds.append('late_edges_added_in_place')
         if want and want not in crisk:
             continue
         if (set(opened) - {want}) & crisk:
@@ -161,6 +219,8 @@ def ref0_nt(spec):
 
 
 def run_case(case, ctx):
+    if case.get('family') == 'population':
+        return run_population_case(case, ctx)
     spec, feats, risk = make_case(case, ctx)
     kinds = case.get('kinds', [])
     rnd = random.Random(case['cseed'] + 3)
@@ -169,14 +229,30 @@ def run_case(case, ctx):
            'case_extra': {'case_risk': case.get('case_risk', []), 'kinds': kinds}}
     for k in kinds:
         mech[k] = mech.get(k, 0) + 1
-    base_spec = {k: v for k, v in spec.items() if k not in ('updates', 'node_values', 'edge_updates')}
+    base_spec = {k: v for k, v in spec.items() if k not in ('updates', 'node_values', 'edge_updates', 'late_edges', 'late_how')}
     try:
         ref = RefModel(spec)
         ref_base = RefModel(base_spec)
         res['nontrivial'] = any(ref.val[k] != ref_base.val[k] for k in ref.val) and \
             any(ref.val[k] == ref_base.val[k] for k in ref.val if ref.kind[k] in ('const', 'state'))
         # build the template objects once; a sibling circuit is built from the SAME objects before the updates
-        tmpl_nou, objs = build.build_python(base_spec)
+        late = set(spec.get('late_edges', []))
+        if late:
+            early_spec = copy.deepcopy(base_spec)
+            early_spec['circ']['edges'] = [e for i, e in enumerate(base_spec['circ']['edges']) if i not in late]
+            tmpl_nou, objs = build.build_python(early_spec)
+            le = [base_spec['circ']['edges'][i] for i in sorted(late)]
+            if spec.get('late_how') == 'add_edges_from_matrix':
+                for s_, t_, _, a_ in le:
+                    sn, so, sv = s_.rsplit('/', 2)
+                    tn, to, tv = t_.rsplit('/', 2)
+                    # one call per edge: a 1 x 1 'matrix' between the two nodes
+                    tmpl_nou.add_edges_from_matrix(source_var=f'{so}/{sv}', target_var=f'{to}/{tv}', source_nodes=[sn], target_nodes=[tn],
+                                                   weight=np.array([[float(a_.get('weight', 1.0))]]), min_weight=0.0)
+            else:
+                tmpl_nou.update_template(edges=[(s_, t_, None, dict(a_)) for s_, t_, _, a_ in le], in_place=True)
+        else:
+            tmpl_nou, objs = build.build_python(base_spec)
         sibling = copy.copy(tmpl_nou)   # shallow: same node/operator template objects, own dicts
         from pyrates import CircuitTemplate
         sibling = rebuild_from_objects(base_spec, objs)
